@@ -9,6 +9,7 @@ POPS = {
     "bounded_faults": pops.bounded_faults,
     "cancel": pops.cancel,
     "chaos": pops.chaos,
+    "silence": pops.silence,
 }
 
 
